@@ -1,4 +1,6 @@
 """C10 - the default AST carries every content token of the input, in input order."""
+import re
+
 from . import gen
 from .gen import flat, is_g, is_i, is_p, split
 
@@ -223,6 +225,61 @@ def builder_arms(g):
     return None
 
 
+def _snake(name):
+    out = []
+    for i, ch in enumerate(name):
+        if ch.isupper() and i and (name[i - 1].islower() or name[i - 1].isdigit() or (i + 1 < len(name) and name[i + 1].islower())):
+            out.append("_")
+        out.append(ch.lower())
+    return "".join(out)
+
+
+def check_shift(g, res, rid, stats):
+    """generated shift_action: every reachable terminal is wrapped as ITS OWN Terminal variant, with the value its own
+    action makes of the token when it carries content; the wrapped value is pushed onto the result stack"""
+    t = g.table
+    name = (g.name or "").replace("target:", "")
+    im = g.impl("LRBuilder<", "DefaultBuilder")
+    f = [x for x in (im or {}).get("items", []) if x.get("ident") == "shift_action"]
+    if not f:
+        return
+    body = f[0]["body"]
+    arms = None
+    for i, x in enumerate(body):
+        if is_i(x, "match"):
+            scr, arms = gen.match_arms(body[i:])
+            break
+    if not arms:
+        return
+    got = {}
+    for pat, val in arms:
+        got[gen.flat(pat).replace(" ", "")] = gen.flat(val).replace(" ", "")
+    bad = []
+    for term in t["terminals"]:
+        if term["name"] == "STOP" or not term["reachable"]:
+            continue
+        k = "TokenKind::%s" % term["name"]
+        v = got.get(k)
+        if v is None:
+            if "_" in got:
+                continue
+            bad.append("no arm for %s" % term["name"])
+            continue
+        if term["has_content"]:
+            m = re.match(r"^Terminal::(\w+)\((?:\w+::)*(\w+)\(context,token\)\)$", v)
+            if not m or m.group(1) != term["name"] or m.group(2).lower().replace("_", "") != _snake(term["name"]).replace("_", ""):
+                bad.append("%s => %s" % (term["name"], v[:80]))
+        elif v != "Terminal::%s" % term["name"]:
+            bad.append("%s => %s" % (term["name"], v[:80]))
+        stats["arms"] += 1
+    tail = gen.flat(body).replace(" ", "")
+    if "self.res_stack.push(Symbol::Terminal(val))" not in tail:
+        bad.append("the shifted value is not pushed onto the result stack")
+    if bad:
+        res.violation(rid, "%s/shift_action" % name, "%s: DefaultBuilder::shift_action: %s (every terminal must become its own "
+                      "Terminal variant through its own action)" % (name, "; ".join(bad[:3])), g.entry.get("parser_file_rel"))
+
+
 def check_builder(g, res, rid, stats):
     t = g.table
     name = (g.name or "").replace("target:", "")
@@ -254,6 +311,7 @@ def check_builder(g, res, rid, stats):
             res.violation(rid, "%s/%s" % (name, k), "%s: DefaultBuilder arm of %s (%s): %s" % (
                 name, k, " ".join(sym_name(t, s) for s in p["rhs"]), "; ".join(problems[:3])), g.entry.get("parser_file_rel"))
     res.ok(rid, name, g.entry.get("parser_file_rel"), "%d production arms" % n_arms)
+    check_shift(g, res, rid, stats)
     # the result is the TOP of the result stack, unwrapped as the start symbol's nonterminal
     im = g.impl("Builder", "DefaultBuilder")
     gr = [x for x in (im or {}).get("items", []) if x.get("ident") == "get_result"]
